@@ -127,7 +127,8 @@ fn lib_walk<'f>(s: &Sess, fs: &'f Fs, skip_live: bool) -> Option<(&'static str, 
         for k in kids {
             let mn = &s.model.nodes[*k];
             let want = units(&mn.name);
-            let Some(i) = got.iter().enumerate().position(|(i, (l, _))| !used[i] && l.name == want) else {
+            let eq = |l: &crate::sess::Listed| crate::sess::name_matches(l, &want);
+            let Some(i) = got.iter().enumerate().position(|(i, (l, _))| !used[i] && eq(l)) else {
                 return Some(("lib-missing", format!("{}{} is not listed by the library", path, crate::util::show_str(&mn.name))));
             };
             used[i] = true;
@@ -270,6 +271,16 @@ pub fn post_op<'f>(s: &mut Sess, fs: &'f Fs, hs: &mut [Option<H<'f>>], op: &Op, 
         }
     };
     s.counters.decodes += 1;
+    let mut dec = dec;
+    if s.cfg.tolerate_baseline_diags {
+        // residue is identified by where it sits (slot offset), not by the wording of the diagnostic
+        let key = |d: &fatck::Diag| if d.off != 0 { format!("residue@{}", d.off) } else { format!("{}|{}", d.code, d.msg) };
+        if s.baseline_diags.is_none() {
+            s.baseline_diags = Some(dec.diags.iter().map(key).collect());
+        }
+        let base = s.baseline_diags.as_ref().unwrap();
+        dec.diags.retain(|d| !base.contains(&key(d)));
+    }
     if s.cfg.on("C03") && !dec.diags.is_empty() {
         let codes = fatck::diag_codes(&dec.diags);
         let d = format!("after {}: {}", op.show(), dec.diags.iter().map(|d| format!("[{}] {}", d.code, d.msg)).collect::<Vec<_>>().join("; "));
@@ -513,15 +524,32 @@ fn check_stamps(s: &mut Sess, op: &Op, k: usize, old: Option<&Stamps>, new: &Sta
         return None;
     }
     let is_dir = s.model.nodes[k].is_dir;
-    if is_dir && s.touch.contains(&k) && !(matches!(op, Op::Rename { .. }) && s.model.nodes[k].alias.is_none()) {
+    // the file whose handle is being flushed / dropped: size and first cluster may change, stamps only as expected
+    if matches!(op, Op::Flush { .. } | Op::Close { .. }) && s.touch.first() == Some(&k) {
+        if !new.same_stamps(old) && !is_dir {
+            return Some(("stamps-changed-on-flush", format!("{}: stamps changed from {:?} to {:?} by a flush although nothing set them", path, &old, &new)));
+        }
+        return None;
+    }
+    if s.renamed == Some(k) {
+        let body_same = old.raw.len() != 32 || new.raw.len() != 32 || old.raw[11..] == new.raw[11..];
+        if !new.same_stamps(old) || !body_same {
+            return Some(("rename-changed-entry", format!("{}: rename changed more than the name: entry {} -> {}", path, crate::util::hex(&old.raw), crate::util::hex(&new.raw))));
+        }
+        return None;
+    }
+    if is_dir && s.touch.contains(&k) {
         if (new.cdate, new.ctime, new.ctenth) != (old.cdate, old.ctime, old.ctenth) {
             return Some(("dir-created-changed", format!("{}: creation stamp of a directory changed", path)));
+        }
+        if !new.same_raw_except_stamps(old) {
+            return Some(("dir-entry-changed", format!("{}: directory entry changed outside its stamps: {} -> {}", path, crate::util::hex(&old.raw), crate::util::hex(&new.raw))));
         }
         return None;
     }
     Some((
-        if matches!(op, Op::Rename { .. }) { "rename-changed-stamps" } else { "stamp-changed-by-other-op" },
-        format!("{}: stamps changed from {:?} to {:?} by an operation that must not touch them", path, old, new),
+        if new.same_stamps(old) { "entry-changed-by-other-op" } else { "stamp-changed-by-other-op" },
+        format!("{}: directory entry changed from {} to {} by an operation that must not touch it", path, crate::util::hex(&old.raw), crate::util::hex(&new.raw)),
     ))
 }
 
@@ -761,6 +789,11 @@ pub fn after_unmount(s: &mut Sess, pre: &Image, log: &[Ev], how: u8, op: &Op) {
             return;
         }
     };
+    let mut dec = dec;
+    if let (true, Some(base)) = (s.cfg.tolerate_baseline_diags, s.baseline_diags.as_ref()) {
+        let key = |d: &fatck::Diag| if d.off != 0 { format!("residue@{}", d.off) } else { format!("{}|{}", d.code, d.msg) };
+        dec.diags.retain(|d| !base.contains(&key(d)));
+    }
     if s.cfg.on("C03") && !dec.diags.is_empty() {
         let codes = fatck::diag_codes(&dec.diags);
         let d = dec.diags.iter().map(|d| format!("[{}] {}", d.code, d.msg)).collect::<Vec<_>>().join("; ");
